@@ -4,7 +4,7 @@ from .. import env, histgen, session, wire
 from ..runner import Prop, Stage, Result
 from .c01 import CHATTER, CHATTER_TOKENS, TS_SHAPED
 
-PROFILE = dict(reuse=0.6, long_strings=True, weights=dict(newer=4, delete=14, bind=12, message=50, server_event=8, sync=6, enum=10, title=16, kinds=8, nulls=6, retype=3))
+PROFILE = dict(reuse=0.6, long_strings=True, weights=dict(repeat=4, newer=4, delete=14, bind=12, message=50, server_event=8, sync=6, enum=10, title=16, kinds=8, nulls=6, retype=3))
 
 
 def gen_chatter(d):
